@@ -189,6 +189,10 @@ end
 
 /-! ### Canonical trees: the image of the parser (DESIGN Appendix B) -/
 
+/-- the bit patterns a float literal can denote: sign bit clear and exponent field not all ones (finite,
+    non-negative) — `1e999` is an error, `-1.5` is a unary minus applied to `1.5`, NaN has no spelling -/
+def floatLit (b : UInt64) : Bool := decide (b.toNat < 0x7FF0000000000000)
+
 def reserved (n : String) : Bool := n == "true" || n == "false" || n == "nil"
 
 /-- the parser attaches no type: `kd` is the zero value -/
@@ -205,7 +209,7 @@ def canon (d : Nat) : Node → Bool
   | .nil m => inv m
   | .bool m _ => inv m
   | .int m v => inv m && decide (0 ≤ v ∧ v < 9223372036854775808)
-  | .float m _ => inv m
+  | .float m b => inv m && floatLit b
   | .str m _ => inv m
   | .ident m n ns => inv m && !ns && !reserved n
   | .const _ _ => false
